@@ -126,7 +126,7 @@ CLAIMED = {
               '(negative included) for enumerated divisors of 86400, day-of-month, month and weekday targets for every '
               'day of the year windows, idempotence and the day carry through dt_round. Reference: field == target, '
               'finer fields kept, requested side, no nearer candidate.'),
-        note=('targets as parsed durations (dt_io_strpdtrnd text not covered); ISO-week targets 1..52 and business-day targets 1..20 covered, week 53 and higher business-day indices '
+        note=('targets as parsed durations (dt_io_strpdtrnd text not covered); ISO-week targets 1..52 and business-day targets 1..20 covered, month co-classes /N (N | 12) covered; week 53 and higher business-day indices '
               'outside; divisors enumerated (12 quick / 96 thorough); two defects found and fixed'),
         technique='CBMC bounded model checking of dround kernels against a relational nearest-target reference',
         design='3/C16'),
